@@ -224,6 +224,27 @@ class Executor:
         self.trace = []
 
     # -- class helpers
+    def declared_fields(self, cls):
+        """names declared by a class whose whole ancestry is in the loaded sources (annotated fields, class attributes and
+        methods); None when some base is not loaded (then nothing can be said about a missing attribute)"""
+        if cls not in self.classes:
+            return None
+        names = set()
+        for c in self.mro(cls):
+            node = self.classes[c]
+            for b in node.bases:
+                bname = b.id if isinstance(b, ast.Name) else (b.attr if isinstance(b, ast.Attribute) else None)
+                if bname not in self.classes and not (isinstance(b, ast.Attribute) and bname == "Module"):
+                    return None
+            for st in node.body:
+                if isinstance(st, ast.AnnAssign) and isinstance(st.target, ast.Name):
+                    names.add(st.target.id)
+                elif isinstance(st, ast.Assign):
+                    names |= {t.id for t in st.targets if isinstance(t, ast.Name)}
+                elif isinstance(st, ast.FunctionDef):
+                    names.add(st.name)
+        return names
+
     def mro(self, cls):
         out, todo = [], [cls]
         if cls not in self.classes:
@@ -604,6 +625,10 @@ class Executor:
             cls, node = self.find_method(v.cls, attr)
             if node is not None:
                 return Closure(node, {}, self, self_val=v, cls=cls)
+            declared = self.declared_fields(v.cls)
+            if declared is not None and attr not in declared:
+                # the class (and all its bases) is defined in the loaded sources and declares no such field / method
+                raise PyRaise("AttributeError", f"'{v.cls}' object has no attribute '{attr}'")
             raise Unsupported(f"{v.cls} has no attribute {attr}")
         if isinstance(v, ModuleRef):
             name = v.name + "." + attr
@@ -615,6 +640,8 @@ class Executor:
                 return tuple(v.shape)
             if attr == "ndim":
                 return len(v.shape)
+            if attr == "dtype":
+                return Builtin("int" if v.dtype == "int" else "float")
             if attr == "at":
                 return AtProxy(v)
             if attr in ("reshape", "flatten", "astype", "mean", "sum"):
@@ -1556,6 +1583,19 @@ def lib_tree_structure(ex, args, kwargs, pc):
     return ("treedef", args[0])
 
 
+def lib_tree_unflatten(ex, args, kwargs, pc):
+    """tree_unflatten(tree_structure(d), leaves) for a flat dict d: JAX's treedef lists the keys in *sorted* order"""
+    treedef, leaves = args
+    if isinstance(treedef, tuple) and treedef[0] == "treedef" and isinstance(treedef[1], dict) \
+            and all(not isinstance(v, (dict, list, tuple)) for v in treedef[1].values()):
+        keys = sorted(treedef[1], key=str)
+        leaves = list(leaves)
+        if len(leaves) != len(keys):
+            raise PyRaise("ValueError", "tree_unflatten: wrong number of leaves")
+        return dict(zip(keys, leaves))
+    raise Unsupported("tree_unflatten of this structure")
+
+
 def lib_tree_transpose(ex, args, kwargs, pc):
     """transposition of a dict of equal-length tuples into a list of dicts (the only form used by the loaders)"""
     outer, inner, tree = args
@@ -1700,6 +1740,8 @@ def lib_identity_decorator(ex, args, kwargs, pc):
 
 LIB = {
     "jax.device_put": lambda ex, args, kwargs, pc: args[0],      # placement only: the value is unchanged
+    "jax.lax.with_sharding_constraint": lambda ex, args, kwargs, pc: args[0],     # placement only
+    "jax.tree_util.tree_unflatten": lambda ex, args, kwargs, pc: lib_tree_unflatten(ex, args, kwargs, pc),
     "jax.lax.cond": lib_cond,
     "jax.lax.dynamic_slice": lib_dynamic_slice,
     "jax.lax.dynamic_update_slice": lib_dynamic_update_slice,
